@@ -42,7 +42,10 @@ Next == UNCHANGED g
 SmpOf(lay) == LET ts == SetToSortSeq({u \in 0..MaxT : lay[u] # "-"}, LAMBDA a, b : a < b)
               IN [i \in 1..Len(ts) |-> Smp(ts[i], IF lay[ts[i]] = "f" THEN "f" ELSE "s", 100 + ts[i])]
 
-Data(x) == << Series(<< <<"__name__", "m">>, <<"a", "x">> >>, SmpOf(x.lay)),
+\* m{a="w"} comes first in the storage and has one early sample: for later windows a storage that hands out only the
+\* querier's time range returns it without any sample (the series after it must not be disturbed by that)
+Data(x) == << Series(<< <<"__name__", "m">>, <<"a", "w">> >>, <<Smp(0, "f", 5)>>),
+              Series(<< <<"__name__", "m">>, <<"a", "x">> >>, SmpOf(x.lay)),
               Series(<< <<"__name__", "decoy">>, <<"a", "x">> >>, <<Smp(0, "f", 7), Smp(MaxT, "f", 8)>>) >>
 
 AtK(x) == x.at.k
@@ -71,9 +74,11 @@ GridOf(x) == Grid(ScnOf(x))
 SelectionLaw ==
   LET sc == ScnOf(g)  gr == Grid(sc) IN
   \A i \in 1..Len(gr) :
-     LET r == Eval(sc, 1, gr[i])  c == Chosen(g, gr[i]) IN
+     LET r == Eval(sc, 1, gr[i])  c == Chosen(g, gr[i])
+         vx == SelectSeq(r.vec, LAMBDA e : e.val # I(5))      \* the entries of m{a="x"} (values 100 + tick)
+     IN
      /\ r.why = {} /\ ~r.unk
-     /\ IF c = -1 THEN Len(r.vec) = 0 ELSE Len(r.vec) = 1 /\ r.vec[1].val = I(100 + c)
+     /\ IF c = -1 THEN Len(vx) = 0 ELSE Len(vx) = 1 /\ vx[1].val = I(100 + c)
 
 \* ---- emission filter
 \* boundary: some step whose candidate window edge is exactly hit (age = lookback), just missed
